@@ -388,8 +388,15 @@ func checkC04Foreign(c C04Foreign, o *vcore.Obs) error {
 			mts = 1
 		}
 	}
+	mflags := uint32(1)
+	if c.FV < 2 {
+		// format version 1 has no flags: a deletion is an entry with an empty value (a snapshot of an old release in a
+		// mixed fleet); the DBI must exist locally (a pre-v3 snapshot cannot create one)
+		mflags = 0
+		c.Val = nil
+	}
 	snap := model.Snap{FormatVersion: uint32(c.FV), CompatVersion: 1, Meta: model.Meta{InstanceID: "peer", DatabaseName: DBName},
-		DBIs: []model.DBI{{Name: "d0", Entries: []model.KV{{Key: key, TS: mts, Flags: 1, Val: model.ValOf(c.Val)}}}}}
+		DBIs: []model.DBI{{Name: "d0", Entries: []model.KV{{Key: key, TS: mts, Flags: mflags, Val: model.ValOf(c.Val)}}}}}
 	for i := 0; i < c.Others; i++ {
 		snap.DBIs[0].Entries = append(snap.DBIs[0].Entries, model.KV{Key: []byte(fmt.Sprintf("p%d", i)), TS: mts, Val: model.ValOf([]byte("pv"))})
 	}
@@ -425,7 +432,8 @@ func checkC04Foreign(c C04Foreign, o *vcore.Obs) error {
 	if v, ok := app["d0"]["other"]; !c.Native && (!ok || string(v) != "x") {
 		return fmt.Errorf("unrelated key changed: present=%v %q", ok, v)
 	}
-	o.NonTrivial(len(c.Val) > 0)
+	o.NonTrivial(len(c.Val) > 0 || c.FV < 2)
+	o.ClassIf(c.FV < 2, "deletion-from-a-format-version-1-snapshot")
 	o.ClassIf(len(c.Val) > 0, "marker-carrying-a-payload")
 	o.Class("receiver-has-" + c.Present)
 	return nil
@@ -433,10 +441,10 @@ func checkC04Foreign(c C04Foreign, o *vcore.Obs) error {
 
 func TestC04ForeignMarker(t *testing.T) {
 	vcore.Run(t, vcore.Config{Property: "C04",
-		Rule: "rapid: a native / shadow receiver that holds no / an older / a newer version of a key merges a hand-made snapshot (format version 2 or 3) in which that key is a deletion marker that still carries a payload of 0-40 bytes, next to 0-3 ordinary entries: a newer deletion deletes (application no longer sees the key; a stored marker has no value), an older one changes nothing; non-trivial = the marker carries a payload"},
+		Rule: "rapid: a native / shadow receiver that holds no / an older / a newer version of a key merges a hand-made snapshot in which that key is a deletion - format version 2 or 3: a marker that still carries a payload of 0-40 bytes; format version 1: an entry with an empty value -, next to 0-3 ordinary entries: a newer deletion deletes (application no longer sees the key; a stored marker has no value), an older one changes nothing; non-trivial = the marker carries a payload"},
 		func(t *rapid.T) C04Foreign {
 			return C04Foreign{Native: rapid.Bool().Draw(t, "native"), Present: rapid.SampledFrom([]string{"absent", "older", "older", "newer"}).Draw(t, "present"),
 				Val: rapid.SampledFrom([]model.Bytes{{}, []byte("v"), []byte("old payload left in place"), make([]byte, 40)}).Draw(t, "val"),
-				FV:  rapid.SampledFrom([]int{2, 3, 3}).Draw(t, "fv"), Others: rapid.IntRange(0, 3).Draw(t, "others")}
+				FV:  rapid.SampledFrom([]int{1, 2, 3, 3}).Draw(t, "fv"), Others: rapid.IntRange(0, 3).Draw(t, "others")}
 		}, checkC04Foreign)
 }
